@@ -5,6 +5,8 @@
 (* {"ev":"mol","tid":n,"src":"random|context|geometry","cls":"nla|chic","conv":"F|R",            *)
 (*  "contig":name,"ref":[letters of the whole contig as written to the FASTA file],               *)
 (*  "strand":0|1|-1 (as reported by the molecule), "raised":"" | exception type,                  *)
+(*  "pre":"" | name of an input class outside the quantifier, "refobj":"fasta|cached",            *)
+(*  "history":"once|incremental|requery",                                                         *)
 (*  "frags":[{"reads":[{"mate":1|2,"rev":bool,"start":int,"cigar":[[op,len]..],"seq":[..],       *)
 (*                      "qual":[..],"has_xm":bool,"xm":[..],"tot":{"MC":..,"uC":..,...}}]}],      *)
 (*  "calls":[{"contig":name,"p":pos,"letter":"z|Z|x|X|h|H|.","cons":base}]}                       *)
@@ -34,10 +36,12 @@ ReadsOf(e) == FoldLeft(LAMBDA acc, f : acc \o f.reads, <<>>, e.frags)
 Tagged(e) == LET rs == ReadsOf(e) IN [ i \in DOMAIN rs |-> [ al |-> Walk(rs[i]).al, xm |-> rs[i].xm, tot |-> rs[i].tot ] ]
 CallsOf(e) == LET S == SeqSet(e.calls) IN [ p \in { c.p : c \in S } |-> (CHOOSE c \in S : c.p = p).letter ]
 
+(* e.pre names an input class outside the statement's quantifier (e.g. "unmapped_mate"): observed, never judged *)
 Precondition(e) == LET fr == AbsFrags(e) IN T!StrandDefined(fr) /\ T!StrandConsistent(fr)
 
 MolVerdict(e) ==
-    IF e.raised # "" THEN "Raised_" \o e.raised
+    IF e.pre # "" THEN "ok"
+    ELSE IF e.raised # "" THEN "Raised_" \o e.raised
     ELSE IF ~Precondition(e) THEN "ok"
     ELSE IF \E i \in DOMAIN e.calls : e.calls[i].contig # e.contig THEN "Inv_C14_OnTarget_contig"
     ELSE IF Cardinality({ c.p : c \in SeqSet(e.calls) }) # Len(e.calls) THEN "duplicate_call_position"
@@ -49,7 +53,10 @@ Verdict(e) == CASE e.ev = "mol" -> MolVerdict(e)
 
 (* informational observations (never rejects) *)
 Observe(line, e) ==
-    IF e.ev # "mol" \/ e.raised # "" THEN TRUE
+    IF e.ev # "mol" THEN TRUE
+    ELSE IF e.pre # "" THEN Note(line, e.tid, "outside_quantifier_" \o e.pre \o
+                                              (IF e.raised # "" THEN "_raises_" \o e.raised ELSE "_no_exception"))
+    ELSE IF e.raised # "" THEN TRUE
     ELSE IF ~Precondition(e) THEN Note(line, e.tid, "outside_precondition_strand")
     ELSE LET fr == AbsFrags(e)
              cl == CallsOf(e)
